@@ -348,6 +348,7 @@ func (app *App) txDeliverer() txDeliverer {
 				app.logger.Error("panic while delivering tx: ", r)
 				debug.PrintStack()
 				app.Context.deliver.DiscardTxSession()
+				app.Context.stateDB.DiscardTxLogs()
 				app.Context.stateDB.DiscardTx()
 				result = ResponseDeliverTx{
 					Code: CodeNotOK.uint32(),
@@ -424,6 +425,7 @@ func (app *App) txDeliverer() txDeliverer {
 
 		if !(ok && feeOk) {
 			app.Context.deliver.DiscardTxSession()
+			app.Context.stateDB.DiscardTxLogs()
 		} else {
 			app.Context.deliver.CommitTxSession()
 		}
